@@ -49,7 +49,7 @@ for n in ("p6_auto", "p6_wipe"):
     H(n, src="p_lang.c", tus=["lang", "dependency", "langflags"], strip=P6_STRIP, c16=True, flags=CAD + ["--unwind", "40"], cap=600, rss=3.5)
 
 H("p1_write", src="p_str.c", tus=["polyseed", "dependency"], flags=CAD + ["--unwind", "98"], cap=120, rss=1.0)
-H("p3_lazy", src="p_str.c", tus=["dependency"], defs=["DEP_STR_MAX=1", "DEP_IN_LEN_MAX=640"], flags=CAD, cap=300, rss=2.0)
+H("p3_lazy", src="p_str.c", tus=["dependency"], defs=["DEP_STR_MAX=1", "DEP_NFKD_PROBE=1"], flags=CAD, cap=300, rss=2.0)
 H("p4_split", src="p_str.c", tus=["polyseed", "dependency"], flags=CAD, cap=600, rss=3.0)
 
 for n in ("t4_table", "t4_distinct", "t4_selffind", "t4_meta", "t4_abbrevfind", "t4_selfcheck"):
